@@ -294,13 +294,38 @@ func c35(c *engine.Ctx) {
 				strings.HasSuffix(engine.Describe(trim.Common().Args[1]), "unicode.IsSpace")
 		}
 		c.Check(ok, "C35.R5", "fixEntities/trims-trailing-space-of-last-block", fx.Pos(), "the block trimmed must be msg[lastEntity.offset:] right-trimmed with unicode.IsSpace")
+		// the cut message and its UTF-16 length
+		var cut *ssa.Slice
+		engine.Instrs(fx, func(i ssa.Instruction) {
+			if sl, ok := i.(*ssa.Slice); ok && sl.Low == nil && engine.Unwrap(sl.X) == ssa.Value(fx.Params[1]) {
+				if add, isAdd := sl.High.(*ssa.BinOp); isAdd && add.Op == token.ADD {
+					if lc := engine.CallOf(add.Y); lc != nil && engine.CalleeID(lc.Common()) == "builtin.len" && trim != nil && engine.CallOf(lc.Common().Args[0]) == trim && strings.HasSuffix(engine.Describe(add.X), ".offset") {
+						cut = sl
+					}
+				}
+			}
+		})
 		for _, call := range sets {
 			n5++
 			a := call.Common().Args
-			ln := engine.CallOf(a[1])
-			okS := trim != nil && ln != nil && engine.CalleeID(ln.Common()) == "telegram/message/entity.ComputeLength" && engine.CallOf(ln.Common().Args[0]) == trim
-			sl, isSl := engine.Unwrap(a[2]).(*ssa.Slice)
-			okS = okS && isSl && sl.High == nil && engine.Unwrap(sl.X) == ssa.Value(fx.Params[2]) && engine.Describe(sl.Low) == "p:b.lastFormatIndex"
+			// every entity reaching past the cut is shortened: the loop runs
+			// over the whole entity list (nested entities, and the reordering
+			// done by ShrinkPreCode, put such entities anywhere in it), and the
+			// new length is measured against the UTF-16 length of the cut text
+			whole := engine.Unwrap(a[2]) == ssa.Value(fx.Params[2])
+			idxOK, _ := c39RangeIndex(a[0], fx.Params[2])
+			var end *ssa.Call
+			for _, cl := range engine.CallsTo(fx, false, "telegram/message/entity.ComputeLength") {
+				if cc, _ := cl.(*ssa.Call); cc != nil && cut != nil && engine.Unwrap(cc.Common().Args[0]) == ssa.Value(cut) {
+					end = cc
+				}
+			}
+			valOK := end != nil && engine.DependsOn(a[1], end)
+			okS := whole && idxOK && valOK
+			if !whole {
+				c.Check(false, "C35.R5", "fixEntities/setLength#"+ordinalCall(fx, call)+"/covers-every-entity-past-the-cut", call.Pos(), "after the message is cut, only %s is shortened: any other entity that reaches into the trimmed tail (a nested entity, or any entity once ShrinkPreCode has reordered the list) keeps a range that ends beyond the text", engine.Describe(a[2]))
+				continue
+			}
 			// only when the last entity reaches the end of the message
 			okG := lastBlock != nil && engine.GuardedBy(call, func(k engine.Cmp) bool {
 				for _, q := range []engine.Cmp{k, k.Swap()} {
@@ -312,7 +337,26 @@ func c35(c *engine.Ctx) {
 				}
 				return false
 			})
-			c.Check(okS && okG, "C35.R5", "fixEntities/setLength#"+ordinalCall(fx, call), call.Pos(), "lengths may be rewritten only for entities[lastFormatIndex:], to ComputeLength(trimmed), and only when the last entity reaches the end of the message (value/target: %v, end-of-message guard: %v)", okS, okG)
+			// only entities that really end beyond the cut are touched
+			okE := end != nil && engine.GuardedBy(call, func(k engine.Cmp) bool {
+				for _, q := range []engine.Cmp{k, k.Swap()} {
+					sum, isSum := engine.Unwrap(q.X).(*ssa.BinOp)
+					if !isSum || sum.Op != token.ADD || engine.CallOf(q.Y) != end || q.Op != token.GTR {
+						continue
+					}
+					m := map[string]bool{}
+					for _, s := range []ssa.Value{sum.X, sum.Y} {
+						if g := engine.CallOf(s); g != nil && g.Common().IsInvoke() {
+							m[g.Common().Method.Name()] = true
+						}
+					}
+					if m["GetOffset"] && m["GetLength"] {
+						return true
+					}
+				}
+				return false
+			})
+			c.Check(okS && okG && okE, "C35.R5", "fixEntities/setLength#"+ordinalCall(fx, call), call.Pos(), "a length may be rewritten only for an entity with offset+length beyond the UTF-16 length of the cut text, in a loop over the whole list, to a value derived from that length, and only when the last block reaches the end of the message (loop/value: %v, end-of-message guard: %v, beyond-the-cut guard: %v)", okS, okG, okE)
 		}
 		// the message is cut at offset + len(trimmed)
 		for _, r := range engine.Returns(fx) {
